@@ -100,9 +100,13 @@ structure State where
   listed : List (Ups × List Schema)
   /-- keys of `upstreamLock` (created by the first upstream event handled for the upstream, never removed) -/
   locks : List Ups
+  /-- API-backed store only: names of the conditions whose API `Delete` currently fails with an error other than
+      NotFound (unavailable server, lost answer); the store then keeps its cached copy. Always `[]` with the local
+      store. An environment fact, like `leaders` and `listed`. -/
+  failing : List Str
   deriving DecidableEq, Repr
 
-def init : State := ⟨[], [], [], [], [], [], [], []⟩
+def init : State := ⟨[], [], [], [], [], [], [], [], []⟩
 
 /-! ## Names -/
 
@@ -161,6 +165,13 @@ def setState (f : FC) (i : Inst) (rid cur : Int) : FC × Bool × Int × Bool :=
       else
         (f.put i { st1 with count := cur } c1, true, cur, false)
 
+/-- what a burst of CONCURRENT acquires of `i` leaves behind, given the per-instance state `st` it ends with
+    (`SetState` is one critical section, so the burst is some sequence of `setState`s of `i`: only `i`'s entry and,
+    by the same amount, the total change). -/
+def FC.force (f : FC) (i : Inst) (st : IState) : FC :=
+  if !f.isMif then f else
+  f.put i st (toI32 (f.count - ((f.getState i).map (·.count)).getD 0 + st.count))
+
 /-! ## the local store (one per shard, flat) -/
 
 def getCond (s : State) (sh : Nat) (u : Ups) (n : Str) : Option Cond :=
@@ -173,8 +184,14 @@ def saveCond (conds : List (Nat × Cond)) (sh : Nat) (c : Cond) : List (Nat × C
 def listUpstream (conds : List (Nat × Cond)) (sh : Nat) (u : Ups) : List Cond :=
   (conds.filter fun r => r.1 == sh && r.2.upstream == u).map (·.2)
 
+/-- the API refuses to delete some condition of the upstream in this store: `objectStore.DeleteUpstream` gives up and
+    leaves its cache as it is. -/
+def blocked (conds : List (Nat × Cond)) (failing : List Str) (sh : Nat) (u : Ups) : Bool :=
+  conds.any fun r => r.1 == sh && r.2.upstream == u && failing.contains r.2.name
+
 /-- `DeleteUpstream` on the store of shard `sh`. -/
 def deleteUpstream (s : State) (sh : Nat) (u : Ups) : State :=
+  if blocked s.conds s.failing sh u then s else
   { s with
     clusters := s.clusters.filter (fun r => !(r.1 == sh && r.2.1 == u)),
     conds := s.conds.filter (fun r => !(r.1 == sh && r.2.upstream == u)),
@@ -356,10 +373,23 @@ def acquire (s : State) (u : Ups) (i : Inst) (rid : Int) (reqs : List (Str × In
     let (s', rs) := acquireLoop i rid sh u s reqs []
     (s', .acquired rs)
 
+/-- 2–8 first acquires of `i` for flow control `n` arriving in PARALLEL; `st` is the state of `i` the real flow
+    control ended with (`none`: it has none). -/
+def burst (s : State) (u : Ups) (i : Inst) (n : Str) (st : Option IState) : State :=
+  let sh := shardOf u
+  if !isLeader s sh then s
+  else if !s.shards.contains sh then s
+  else
+    match st with
+    | none => s
+    | some st => { s with fcs := mapFC s.fcs sh u n (fun f => f.force i st) }
+
 /-! ## the two clean-up passes -/
 
-/-- `deleteCondition`'s guard: leader of the condition's shard and a non-empty `Spec.Instance`. -/
-def deletable (s : State) (c : Cond) : Bool := isLeader s (shardOf c.upstream) && c.inst != []
+/-- `deleteCondition`'s guard (leader of the condition's shard, non-empty `Spec.Instance`) and the store's `Delete`
+    going through (API-backed store: the API delete answers nil or NotFound). -/
+def deletable (s : State) (c : Cond) : Bool :=
+  isLeader s (shardOf c.upstream) && c.inst != [] && !s.failing.contains c.name
 
 /-- the conditions the time-out pass picks for dead instance `d`:
     `List(SelectorFromValidatedSet{label: d})` filtered by `Spec.Instance == d`. -/
@@ -387,10 +417,11 @@ def cleanupUnknown (s : State) : State :=
   let upstreamsToDelete := (s.conds.filter fun r => unknown s r.2 && !isListed s r.2.upstream).map (·.2.upstream)
   let conds1 := s.conds.filter fun r => !(unknown s r.2 && deletable shardOf s r.2)
   let fcs1 := s.fcs.map fun r => (r.1, r.2.1, dropAll clientsToDelete r.2.2)
+  let gone (sh : Nat) (u : Ups) : Bool := upstreamsToDelete.contains u && !blocked conds1 s.failing sh u
   { s with
-    clusters := s.clusters.filter (fun r => !upstreamsToDelete.contains r.2.1),
-    conds := conds1.filter (fun r => !upstreamsToDelete.contains r.2.upstream),
-    fcs := fcs1.filter (fun r => !upstreamsToDelete.contains r.2.1) }
+    clusters := s.clusters.filter (fun r => !gone r.1 r.2.1),
+    conds := conds1.filter (fun r => !gone r.1 r.2.upstream),
+    fcs := fcs1.filter (fun r => !gone r.1 r.2.1) }
 
 /-! ## leadership -/
 
@@ -434,6 +465,9 @@ inductive Op
   | list (u : Ups) (schemas : List Schema)
   | unlist (u : Ups)
   | handle (u : Ups)
+  | burst (u : Ups) (i : Inst) (n : Str) (st : Option IState)
+  | faults (names : List Str)
+  | apiDelete (name : Str)
   deriving DecidableEq, Repr
 
 def step (s : State) : Op → State × Out
@@ -447,6 +481,9 @@ def step (s : State) : Op → State × Out
   | .list u schemas => (list s u schemas, .unit)
   | .unlist u => (unlist s u, .unit)
   | .handle u => (handle shardOf s u, .unit)
+  | .burst u i n st => (burst shardOf s u i n st, .unit)
+  | .faults names => ({ s with failing := names }, .unit)
+  | .apiDelete _ => (s, .unit)   -- out-of-band deletion in the API: the store's cache does not see it
 
 def run (s : State) (ops : List Op) : State := ops.foldl (fun st op => (step shardOf st op).1) s
 
@@ -455,6 +492,7 @@ def Op.isBy (i : Inst) : Op → Bool
   | .heartbeat j _ => j == i
   | .report _ j _ _ => j == i
   | .acquire _ j _ _ => j == i
+  | .burst _ j _ _ => j == i
   | _ => false
 
 /-! ## FNV-1a, `util.GetShardID` (used by the driver; the theorems hold for every `shardOf`) -/
